@@ -101,7 +101,7 @@ PROPS = {
                         "the stored count of waiting blocks of a task is re-based to the remaining blocks on import"],
     },
     "C16": {
-        "lean": ["Shentu.Props.C16"],
+        "lean": ["Shentu.Props.C16", "Shentu.Props.C16m"],
         "drivers": ["vmdriver", "chaindriver"],
         "engines": VM_ENGINES + [VM_ZEROLEN, BLOCKHASH],
         "trusted": VM_TRUST + ["Shentu.Gen.EVM is regenerated from vm/contract.go by the translator; the refinement theorems are stated about the regenerated definitions"],
@@ -122,7 +122,7 @@ PROPS = {
                 assumptions=BANKVM["assumptions"] + [MINT_ASSUME, "arbitrary contract programs (value calls, SELFDESTRUCT to any beneficiary, failing frames) are covered by the VM engine: the accounts of the interpreter's cache hold the same sum before and after every generated call tree; the write-back of that cache to the bank is covered by the chain engine's library programs"]),
     "C18": dict(BANKVM, lean=["Shentu.Props.C18", "Shentu.Props.C18vm", "Shentu.Props.C01tx"], drivers=["chaindriver", "vmdriver"],
                 engines=[chain("bankvm", 160, 1600, ops=100), vm("calls", 16000, 320000), vm("create", 4800, 48000), EXPORT]),
-    "C19": dict(BANKVM, lean=["Shentu.Props.C19", "Shentu.Props.C19H", "Shentu.Props.C01tx"], engines=[chain("bankvm", 160, 1600, ops=100), chain("payout", 48, 480, ops=120, tops=200), EXPORT],
+    "C19": dict(BANKVM, lean=["Shentu.Props.C19", "Shentu.Props.C19H", "Shentu.Props.C01tx", "Shentu.Props.C19vm"], engines=[chain("bankvm", 160, 1600, ops=100), chain("payout", 48, 480, ops=120, tops=200), EXPORT],
                 assumptions=BANKVM["assumptions"] + ["the one path outside the bank and cvm modules that touches the lock — a shield claim paid out of the stake of an account with locked coins — is exercised by the engine 'payout' on providers turned into ManualVestingAccounts in a discarded cache context (an account with locked coins may delegate them and deposit collateral)"]),
     "C11": dict(GOV, lean=["Shentu.Props.C11", "Shentu.Props.C11H", "Shentu.Props.ShieldTie"]),
     "C12": dict(GOV, lean=["Shentu.Props.C12", "Shentu.Props.C12T"], engines=GOV["engines"] + [chain("shield", 48, 480, ops=160)],
